@@ -15,7 +15,7 @@ ASSUMPTIONS = [
     "numpy storage replaced by dtype=object arrays",
 ]
 BOUNDS = {
-    "quick": "helpers: domain sizes 2-3, up to 2 constraints of arity <= 2 (plus one ternary), with/without own cost table, min/max; DSA A/B/C on pair, DSA-A on chain-3 (2 cycles), A-DSA pair (3 ticks), DSA-tuto pair (3 rounds)",
+    "quick": "helpers: domain sizes 2-3, up to 2 constraints of arity <= 2 (plus one ternary), with/without own cost table on the target and/or on its neighbour, a variable without constraint, min/max; DSA A/B/C on pair, DSA-A on chain-3 (2 cycles), A-DSA pair (3 ticks), DSA-tuto pair (3 rounds)",
     "thorough": "helpers: domain up to 4, ternary + binary, all kinds; DSA variants on chain-3 and pair with variable costs, 3 cycles",
 }
 OUTSIDE = "domains above 4, more than 2 constraints per variable, float-valued finite costs, NaN"
@@ -41,6 +41,15 @@ def jobs(tier):
                     target = "y" if struct.startswith("chain3") else "x"
                     out.append({"name": "findopt-%s-d%d-%s-%s" % (struct, dom, kinds, mode), "op": "findopt",
                                 "spec": spec(struct, mode, dom=dom), "kinds": kinds, "target": target})
+        # the neighbour's own cost table must not leak into the best response; a variable without constraint still has
+        # its own costs
+        for kinds in ("fin", "posinf", "neginf"):
+            out.append({"name": "findopt-pair_vcost2-x-%s-%s" % (kinds, mode), "op": "findopt", "spec": spec("pair_vcost2", mode),
+                        "kinds": kinds, "target": "x"})
+            out.append({"name": "findopt-pair_vcost-y-%s-%s" % (kinds, mode), "op": "findopt", "spec": spec("pair_vcost", mode),
+                        "kinds": kinds, "target": "y"})
+            out.append({"name": "findopt-single_vcost-%s-%s" % (kinds, mode), "op": "findopt", "spec": spec("single_vcost", mode),
+                        "kinds": kinds, "target": "x"})
         for dom in doms:
             for kinds in ("fin", "posinf"):
                 out.append({"name": "ocv-d%d-%s-%s" % (dom, kinds, mode), "op": "ocv", "dom": dom, "kinds": kinds, "mode": mode})
@@ -57,6 +66,8 @@ def jobs(tier):
                     "spec": spec("chain3", mode), "stop": 2 if tier == "quick" else 3, "upfront": True})
         out.append({"name": "dsaA-pairvcost-%s" % mode, "op": "dsa", "algo": "dsa", "variant": "A",
                     "spec": spec("pair_vcost", mode), "stop": 2})
+        out.append({"name": "dsaA-pairvcost2-%s" % mode, "op": "dsa", "algo": "dsa", "variant": "A",
+                    "spec": spec("pair_vcost2", mode), "stop": 2})
         out.append({"name": "adsa-pair-%s" % mode, "op": "dsa", "algo": "adsa", "variant": "A", "spec": spec("pair", mode),
                     "ticks": 2 if tier == "quick" else 3})
         out.append({"name": "adsa-pairvcost-%s" % mode, "op": "dsa", "algo": "adsa", "variant": "B",
